@@ -50,6 +50,7 @@ type Decl struct {
 	EnvSep    string   // separator of the names in the EnvVar list ("" = one blank); any white space is legal
 	EnvPad    string   // white space around the EnvVar list
 	NoSBU     bool     // do not supply a SetByUser pointer
+	Short     bool     // declare through the convenience methods (BoolOpt(name, value, desc), StringArgPtr(into, ...) ...): no env, no SetByUser
 	HideValue bool
 	Desc      string
 	Probe     *ProbeSpec // KVar only
@@ -154,6 +155,9 @@ func (d *Decl) Describe() string {
 	}
 	if d.NoSBU {
 		s += " no-setbyuser"
+	}
+	if d.Short {
+		s += " declared-with-convenience-method"
 	}
 	return s
 }
@@ -618,6 +622,11 @@ func (inst *Instance) declare(c *cli.Cmd, cd *CmdDecl, d *Decl) {
 	inst.vars[key] = bv
 	inst.keys = append(inst.keys, key)
 	env := d.EnvVarString()
+	if d.Short {
+		bv.sbu = nil
+		inst.declareShort(c, d, bv)
+		return
+	}
 	switch d.Kind {
 	case KBool:
 		def := atobDef(d.Def)
@@ -849,4 +858,156 @@ func (inst *Instance) ProbeLog(key string) []Call {
 		return bv.probe.Log
 	}
 	return nil
+}
+
+// declareShort declares through the convenience methods of Cmd.
+func (inst *Instance) declareShort(c *cli.Cmd, d *Decl, bv *boundVar) {
+	switch d.Kind {
+	case KBool:
+		def := atobDef(d.Def)
+		switch {
+		case d.PtrForm && d.IsArg:
+			v := new(bool)
+			*v = d.PrePop
+			c.BoolArgPtr(v, d.Name, def, d.Desc)
+			bv.ptr = v
+		case d.PtrForm:
+			v := new(bool)
+			*v = d.PrePop
+			c.BoolOptPtr(v, d.Name, def, d.Desc)
+			bv.ptr = v
+		case d.IsArg:
+			bv.ptr = c.BoolArg(d.Name, def, d.Desc)
+		default:
+			bv.ptr = c.BoolOpt(d.Name, def, d.Desc)
+		}
+	case KString:
+		switch {
+		case d.PtrForm && d.IsArg:
+			v := new(string)
+			c.StringArgPtr(v, d.Name, d.Def, d.Desc)
+			bv.ptr = v
+		case d.PtrForm:
+			v := new(string)
+			c.StringOptPtr(v, d.Name, d.Def, d.Desc)
+			bv.ptr = v
+		case d.IsArg:
+			bv.ptr = c.StringArg(d.Name, d.Def, d.Desc)
+		default:
+			bv.ptr = c.StringOpt(d.Name, d.Def, d.Desc)
+		}
+	case KInt:
+		def := atoiDef(d.Def)
+		switch {
+		case d.PtrForm && d.IsArg:
+			v := new(int)
+			c.IntArgPtr(v, d.Name, def, d.Desc)
+			bv.ptr = v
+		case d.PtrForm:
+			v := new(int)
+			c.IntOptPtr(v, d.Name, def, d.Desc)
+			bv.ptr = v
+		case d.IsArg:
+			bv.ptr = c.IntArg(d.Name, def, d.Desc)
+		default:
+			bv.ptr = c.IntOpt(d.Name, def, d.Desc)
+		}
+	case KFloat:
+		def := atofDef(d.Def)
+		switch {
+		case d.PtrForm && d.IsArg:
+			v := new(float64)
+			c.Float64ArgPtr(v, d.Name, def, d.Desc)
+			bv.ptr = v
+		case d.PtrForm:
+			v := new(float64)
+			c.Float64OptPtr(v, d.Name, def, d.Desc)
+			bv.ptr = v
+		case d.IsArg:
+			bv.ptr = c.Float64Arg(d.Name, def, d.Desc)
+		default:
+			bv.ptr = c.Float64Opt(d.Name, def, d.Desc)
+		}
+	case KStrings:
+		def := append([]string(nil), d.DefList...)
+		switch {
+		case d.PtrForm && d.IsArg:
+			v := new([]string)
+			if d.PrePop {
+				*v = []string{"stale"}
+			}
+			c.StringsArgPtr(v, d.Name, def, d.Desc)
+			bv.ptr = v
+		case d.PtrForm:
+			v := new([]string)
+			if d.PrePop {
+				*v = []string{"stale"}
+			}
+			c.StringsOptPtr(v, d.Name, def, d.Desc)
+			bv.ptr = v
+		case d.IsArg:
+			bv.ptr = c.StringsArg(d.Name, def, d.Desc)
+		default:
+			bv.ptr = c.StringsOpt(d.Name, def, d.Desc)
+		}
+	case KInts:
+		var def []int
+		for _, s := range d.DefList {
+			def = append(def, atoiDef(s))
+		}
+		switch {
+		case d.PtrForm && d.IsArg:
+			v := new([]int)
+			if d.PrePop {
+				*v = []int{9}
+			}
+			c.IntsArgPtr(v, d.Name, def, d.Desc)
+			bv.ptr = v
+		case d.PtrForm:
+			v := new([]int)
+			if d.PrePop {
+				*v = []int{9}
+			}
+			c.IntsOptPtr(v, d.Name, def, d.Desc)
+			bv.ptr = v
+		case d.IsArg:
+			bv.ptr = c.IntsArg(d.Name, def, d.Desc)
+		default:
+			bv.ptr = c.IntsOpt(d.Name, def, d.Desc)
+		}
+	case KFloats:
+		var def []float64
+		for _, s := range d.DefList {
+			def = append(def, atofDef(s))
+		}
+		switch {
+		case d.PtrForm && d.IsArg:
+			v := new([]float64)
+			if d.PrePop {
+				*v = []float64{9.5}
+			}
+			c.Floats64ArgPtr(v, d.Name, def, d.Desc)
+			bv.ptr = v
+		case d.PtrForm:
+			v := new([]float64)
+			if d.PrePop {
+				*v = []float64{9.5}
+			}
+			c.Floats64OptPtr(v, d.Name, def, d.Desc)
+			bv.ptr = v
+		case d.IsArg:
+			bv.ptr = c.Floats64Arg(d.Name, def, d.Desc)
+		default:
+			bv.ptr = c.Floats64Opt(d.Name, def, d.Desc)
+		}
+	case KVar:
+		val, core := newProbe(d.Probe, inst, inst.keys[len(inst.keys)-1])
+		bv.probe = core
+		if d.IsArg {
+			c.VarArg(d.Name, val, d.Desc)
+		} else {
+			c.VarOpt(d.Name, val, d.Desc)
+		}
+		core.declared = true
+	}
 }
